@@ -249,7 +249,7 @@ def fam_chain(rng, pid, count, targets=("SMA", "EMA", "RMA", "WMA", "HMA"), reve
 
 def fam_manager(rng, pid, count, fills=(False,), has=(False,), lifes=(None,), hexshare=0.25, tzs=(None,),
                 units=("S", "T", "H", "D"), collapse_ops=True, twins=(), kinds=("HLA", "SMA", "EMA", "OBV"),
-                tag="a"):
+                tag="a", pre=0.0):
     """candle-manager behaviour seen through a standalone indicator or a Hexital: irregular
     second-resolution streams, every unit, construction vs chunks, repeated collapse passes"""
     from streams import tf_seconds
@@ -344,6 +344,20 @@ def fam_manager(rng, pid, count, fills=(False,), has=(False,), lifes=(None,), he
         if tz:
             sc["tz"] = tz
             sc["form"] = rng.choice(["candle", "candle", "dict", "dict_iso", "candle_iso", "list", "candle_fold"])
+        elif pre and not sc.get("sub") and sc["obj"] in ("ind", "mgr") and rng.random() < pre:
+            # the caller's Candle objects went through a Heikin-Ashi consumer without a timeframe first (it
+            # converts the caller's objects in place): what this manager is fed are those objects -- Heikin-Ashi
+            # values, tagged, the original values saved on them.
+            # NOT USED BY ANY CHECK (pre = 0 everywhere; DESIGN.md 12.5 round 10): on the unchanged library a
+            # merge into such a candle restores the stamp saved by the other consumer, the bucket label is lost
+            # and the filler does not terminate -- objects carrying another manager's conversion state are not a
+            # "candle stream" in the properties' sense, there is no baseline to compare against.
+            sc["form"] = "candle_pre"
+            sc["twins"] = []
+            # (the definitional clauses are worded for plain raw candles; the operational ones -- the walk, the
+            # filler "flat at the previous candle's close", the conversion -- apply as they stand)
+            sc["mute"] = ["def_shown", "def_clean", "def_tag"]
+            sc["stream"] = make_stream(rng, len(sc["stream"]), rng.choice(["mixed", "walk"]), tf=tf, regular=regular)
         out.append(sc)
     return out
 
@@ -497,6 +511,13 @@ def decorate(rng, scs):
             sc["hex"] = dict(sc["hex"], as_class_attrs=True)
         mem = sc["inds"] + sc.get("late", [])
         tfs = [c.timeframe for c in mem if c.timeframe]
+        # (not in the work scenarios: the recorder there counts every evaluation in the process, the
+        # neighbour's too)
+        if sc.get("form", "candle") == "candle" and not sc.get("scale") and not sc.get("work") and rng.random() < 0.15:
+            # one feed, several consumers: the same Candle objects also go to an unrelated standalone
+            # indicator with a timeframe (before or after the observed object gets them)
+            sc["feed_to"] = {"tf": rng.choice(tfs + ["T5", "S30"]), "ha": rng.random() < 0.6,
+                             "fill": rng.random() < 0.2, "order": rng.choice(["first", "after"])}
         for j, c in enumerate(mem):
             if c.timeframe and "_tf_form" not in c.extra:
                 # members that share a timeframe spell it differently more often than not: the shared
@@ -625,9 +646,9 @@ def _scenarios(pid, tier, rng):
         return (fam_reads(rng, pid, k(280, 1200), forms=("candle", "dict", "list", "list_ts_last", "dict_iso"))
                 # "delivers the same candle to every timeframe of a Hexital": also to one whose last member has
                 # left (the timeframe is still listed and can be joined again)
-                + fam_readd(rng, pid, k(20, 120), twins=()))
+                + fam_readd(rng, pid, k(20, 120), twins=()) + fam_relabel(rng, pid, k(16, 100)))
     if pid == "C20":
-        return fam_reads(rng, pid, k(300, 1300), touches=False)
+        return fam_reads(rng, pid, k(300, 1300), touches=False) + fam_relabel(rng, pid, k(30, 200))
     if pid == "C08":
         # (+ a member that leaves, candles keep arriving, and a member on the same timeframe joins again)
         return fam_hexital(rng, pid, k(220, 1300)) + fam_readd(rng, pid, k(24, 160), twins=("standalone",))
@@ -1153,6 +1174,85 @@ def fam_reads(rng, pid, count, forms=("candle",), touches=True):
             if ok and rng.random() < 0.7:
                 prog.append(("reads", read_batch(rng, sc, names, kinds, L, hexobj, touches,
                                                    span=rng.choice(["full", "full", 1]), only=active())))
+        sc["prog"] = prog
+        out.append(sc)
+    return out
+
+
+def fam_relabel(rng, pid, count):
+    """a label the user chose says nothing about the timeframe: the member carrying it leaves and a
+    member with the same label joins on ANOTHER timeframe (before or after the Hexital was asked for
+    that label).  Every way of asking -- Hexital.reading / prev_reading / has_reading / reading_as_list,
+    the member itself, the candle -- must still mean the same reading."""
+    from record import Session
+    from streams import base_for
+
+    out = []
+    for t in range(count):
+        label = rng.choice(["trend", "fast", "sig.nal"])
+        tf_old = rng.choice([None, None, "T5"])
+        tf_new = rng.choice([x for x in ("T5", "T10", None) if x != tf_old])
+        kind = rng.choice(["SMA", "EMA", "RSI", "BBANDS", "MACD"])
+        a = rand_cfg(rng, kind, tf=tf_old)
+        c = rand_cfg(rng, kind if rng.random() < 0.6 else rng.choice(["SMA", "WMA", "STOCH"]), tf=tf_new)
+        b = rand_cfg(rng, rng.choice(SIMPLE), tf=rng.choice([None, tf_new, tf_old]))
+        a.extra = dict(a.extra, fullname_override=label)
+        c.extra = dict(c.extra, fullname_override=label)
+        cfgs = [a, b, c]
+        names = [x.build(standalone=False).name for x in cfgs]
+        if names[1] == names[0] or names[2] != names[0]:
+            continue
+        kinds = [x.kind for x in cfgs]
+        n = rng.randint(22, 34)
+        st = make_stream(rng, n, rng.choice(["mixed", "walk", "up"]), tf="T5", regular=rng.choice([60, 60, 150, 300]))
+        sc = {"id": f"{pid}/relabel/{kinds[0]}>{kinds[2]}/{tf_old}>{tf_new}/{t}", "fam": "reads", "names_fixed": True,
+              "obj": "hex", "inds": [a, b], "late": [c], "hex": {}, "stream": st, "form": "candle", "twins": [],
+              "member_forms": ["obj", "obj"],
+              "clause_props": {"exc": [pid], "stage": ["C19"], "def": ["C19"], "sideeffect": ["C19"],
+                               "attrs": ["C19"], "args": ["C19"], "read": ["C20"]}}
+        sh = Session(sc, base_for(["T5", "T10"]))
+        act = {0, 1}
+
+        def lens():
+            o = {}
+            for i in sorted(act):
+                ind = sh.indicator(i)
+                cs = ind.candles
+                o[i] = (len(cs), bool(cs) and ind.name in cs[-1].indicators)
+            return o
+
+        def reads(prog):
+            try:
+                L = lens()
+            except Exception:
+                return
+            if L and all(v[0] >= 1 for v in L.values()):
+                prog.append(("reads", read_batch(rng, sc, names, kinds, L, True, pid == "C19", only=set(act))))
+
+        cuts = sorted(rng.sample(range(n // 2, n - 2), 2))
+        prog = [("new", rng.choice([0, 3]))]
+        prog.append(("append", prog[0][1] + 1, cuts[0]))
+        try:
+            for s_ in prog:
+                sh.run(s_)
+            if rng.random() < 0.8:
+                reads(prog)         # the Hexital is asked for the label while the first member carries it
+            steps = [("remove", names[0])]      # (the name as stored: a dot in a label is kept out of the key)
+            if rng.random() < 0.5:
+                steps.append(("append", cuts[0] + 1, cuts[1]))
+            pos = cuts[1] if len(steps) == 2 else cuts[0]
+            steps.append(("add", 2, rng.choice(["obj", "dict"])))
+            steps.append(("calculate", rng.choice(["", names[0]])))
+            for s_ in steps:
+                sh.run(s_)
+                prog.append(s_)
+            act = {1, 2}
+            reads(prog)
+            prog.append(("append", pos + 1, n))
+            sh.run(prog[-1])
+            reads(prog)
+        except Exception:
+            pass
         sc["prog"] = prog
         out.append(sc)
     return out
